@@ -269,6 +269,9 @@ func (in *Interp) runAll(main *Goroutine) {
 		if main.done {
 			return
 		}
+		if cur != nil && cur.yielded {
+			cur = nil
+		}
 		if cur == nil || !in.runnable(cur) {
 			var rs []*Goroutine
 			for _, g := range in.gs {
@@ -291,8 +294,19 @@ func (in *Interp) runAll(main *Goroutine) {
 				in.reportViolation("deadlock", msg, false)
 				panic(pathEnd{kind: "violation", msg: msg})
 			}
-			cur = rs[0]
+			// a goroutine that just yielded lets another one run first
 			if len(rs) > 1 {
+				for k, g := range rs {
+					if g.yielded {
+						g.yielded = false
+						rs = append(append([]*Goroutine{}, rs[:k]...), rs[k+1:]...)
+						rs = append(rs, g)
+						break
+					}
+				}
+			}
+			cur = rs[0]
+			if len(rs) > 1 && !in.preemptLocks {
 				cur = rs[in.schedChoice(len(rs))]
 			}
 		}
